@@ -75,10 +75,18 @@ def _lib_symbols(nodes, d):
 
 
 def _assign_calls(rng, nodes, node):
-    """Distribute calls into the node's translation units so that every
-    declared dependency is really used (the declaration is exact)."""
+    """Distribute calls into the node's translation units: every dependency the
+    code uses is declared; at most one declared dependency stays unused."""
     tus = node['tus']
+    # a quarter of the nodes with two or more dependencies list one library they do
+    # not call themselves (it is still needed further down, or not at all)
+    unused = None
+    if len(node['deps']) >= 2 and rng.random() < 0.25:
+        unused = rng.choice(node['deps'])
+    node['unused_dep'] = unused
     for d in node['deps']:
+        if d == unused:
+            continue
         syms = _lib_symbols(nodes, d)
         k = rng.choice((1, 1, 1, 2, 2, len(syms)))
         chosen = rng.sample(syms, min(k, len(syms)))
@@ -350,6 +358,27 @@ def directed_dags(sysm):
         _lib(5, 'shared', 'so/sss', [4, 3], fcalls=[(4, 4, 'f')], gcalls=[(3, 3, 'g')]),
         _exe(6, 'bin/prog6', [4, 3], [(3, 3, 'f'), (4, 4, 'g')]),
         _exe(7, 'tool7', [5], [(5, 5, 'f'), (5, 5, 'g')]),
+    ]))
+    # D10/D11: a binary that lists a library it does not call itself, *before* the
+    # static library that needs it (over-declaration is inside the property's
+    # premise: every library still declares its own direct dependencies).  With a
+    # driver linking --as-needed the unused shared half is dropped, so the static
+    # user's references must be satisfied by what follows it on the line.
+    out.append(('listed-but-unused-dual-before-static-user', [
+        _lib(0, 'library', 'core/n0core', []),
+        _lib(1, 'static', 'plug/n1plug', [0], fcalls=[(0, 0, 'f')], gcalls=[(0, 0, 'g')]),
+        _exe(2, 'bin/prog2', [0, 1], [(1, 1, 'f'), (1, 1, 'g')]),
+        _exe(3, 'bin/ctl3', [1, 0], [(1, 1, 'f')]),
+        _lib(4, 'shared', 'so/n4dyn', [0, 1], fcalls=[(1, 1, 'g')], gcalls=[]),
+        _exe(5, 'tool5', [4], [(4, 4, 'f'), (4, 4, 'g')], lang='c++'),
+    ]))
+    out.append(('listed-but-unused-shared-and-static-before-users', [
+        _lib(0, 'shared', 'lib/n0dyn', []),
+        _lib(1, 'static', 'lib/sub/n1leaf', []),
+        _lib(2, 'static', 'mid/n2mid', [1, 0], fcalls=[(1, 1, 'f')], gcalls=[(0, 0, 'g')]),
+        _lib(3, 'library', 'x-y/z_w/n3dual', [2], fcalls=[(2, 2, 'f')], gcalls=[(2, 2, 'g')]),
+        _exe(4, 'bin/prog4', [0, 1, 2], [(2, 2, 'f'), (2, 2, 'g')]),
+        _exe(5, 'out/tool5', [1, 3, 2], [(3, 3, 'f')], lang='c++'),
     ]))
     return out
 
